@@ -53,7 +53,7 @@ PROP = dict(
     level_note=(
         "Proved about lean/M3d/Model/Render.lean; the correspondence makes the code agree with the model on the generated cases only. Trusted: Lean kernel, "
         "propext/Classical.choice/Quot.sound, the Go harness and native driver, libm, the Go runtime's channel semantics. Not covered: BPT path sampling and the power heuristic, "
-        "Monte-Carlo convergence of non-constant scenes (statistical; recursion with non-zero BSDF is modelled but tied only at MaxDepth 0 and for zero-BSDF emitters), image I/O. Three genuine defects were found by this "
+        "Monte-Carlo convergence of non-constant scenes (statistical; recursion with non-zero BSDF is modelled and tied sample by sample at MaxDepth 0-3 through the recorded-Cast replay of round 2; whole images only at MaxDepth 0 and for zero-BSDF emitters), image I/O. Three genuine defects were found by this "
         "check and repaired in /repo (estimateColor count after early stop; DirectionalCamera field of view; MatrixMultiply normals)."
     ),
 )
